@@ -843,6 +843,9 @@ class ELF(object):
         c[0] = bytes(self.Ehdr)
         c[self.Ehdr.phoff] = bytes(self.ph)
         for s in self.sh:
+            if isinstance(s, NoBitsSection):
+                # Occupies no space in the file; its offset may lie beyond EOF
+                continue
             c[s.sh.offset] = bytes(s.content)
         c[self.Ehdr.shoff] = bytes(self.sh)
         return bytes(c)
